@@ -253,6 +253,28 @@ def h_profile(ctx, major, fixed):
     ctx.check("exactly one profile request", ms is not None and len(ms) == 1 and type(ms[0]).__name__ == "PROFTRNRQ")
 
 
+ENTITY_LIKE = ["&#39;", "x&#34;y", "&amp;lt;", "&apos;&nbsp;", "&#x27;"]
+
+
+def h_entity_texts(ctx, major, close):
+    """credentials and account ids that look like character references are data: they come back verbatim"""
+    userid = ctx.choice("userid", ENTITY_LIKE)
+    password = ctx.choice("password", ENTITY_LIKE)
+    acctid = ctx.choice("acctid", ENTITY_LIKE)
+    named = ("&amp;", "&lt;", "&gt;", "&nbsp;", "&apos;", "&quot;")
+    if ctx.known("C06-entity-text-decoded-at-assignment", any([e in t for t in (userid, password, acctid) for e in named])):
+        return
+    client = OFXClient("http://x", userid=userid, version=102 if major == 1 else 203, bankid="B1", close_elements=close, org=acctid, fid="77")
+    rq = StmtRq(acctid=acctid, accttype="CHECKING")
+    data = client.request_statements(password, rq, dryrun=True).read()
+    hdr, ofx = parse_back(data)
+    so = ofx.signonmsgsrqv1.sonrq
+    ctx.check("sign-on carries exactly the supplied user id and password", so.userid == userid and so.userpass == password)
+    ctx.check("FI is present with the configured ORG and FID", so.fi.org == acctid)
+    ctx.check("each wrapper carries its account's identifiers, type, date range and flags, in request order",
+              len(ofx.bankmsgsrqv1) == 1 and ofx.bankmsgsrqv1[0].stmtrq.bankacctfrom.acctid == acctid)
+
+
 def h_unclosed_v2(ctx):
     version = ctx.choice("version", V2)
     pretty = ctx.bool("prettyprint")
@@ -271,14 +293,15 @@ def h_unclosed_v2(ctx):
     ctx.check("versions 2xx refuse to omit end tags (per-request override)", refused)
 
 
-HARNESSES = dict(envelope=h_envelope, statements=h_statements, dates=h_dates, accounts=h_accounts, tax=h_tax, profile=h_profile, unclosed_v2=h_unclosed_v2)
+HARNESSES = dict(entity_texts=h_entity_texts, envelope=h_envelope, statements=h_statements, dates=h_dates, accounts=h_accounts, tax=h_tax, profile=h_profile, unclosed_v2=h_unclosed_v2)
 
 META = dict(
     bounds=dict(configurations="every supported version x pretty x close_elements x presence of ORG/FID, CLIENTUID, custom APPID/APPVER/LANGUAGE",
                 requests="0-3 statement requests: kinds given per instance (all 5 kinds and their pairs / triples), symbolic rotation of their order, "
                          "symbolic 1-character account ids over the printable alphabet, symbolic account type, symbolic presence of dates and flags; "
                          "the first request's start date is a symbolic instant 1990-2100 with a symbolic whole-minute UTC offset",
-                credentials="user id 1 and password 2 symbolic characters over the printable alphabet (incl. & < > quotes, non-ASCII)"),
+                credentials="user id 1 and password 2 symbolic characters over the printable alphabet (incl. & < > quotes, non-ASCII); "
+                            "plus credentials / ORG / account ids drawn from texts that look like character references (&#39; &amp;lt; ...)"),
     models=["the whole request path: OFXClient.__init__/request_*/signon/*trnrq builders/wrap_stmtrq dispatch/serialize/make_header/indent/"
             "tostring_unclosed_elements + ET.tostring model; parse back with parse_header/TreeBuilder(model)/from_etree", "uuid4 and the clock run natively (concrete)"],
     assumptions=["read-back uses the library's own parser and converter, whose fidelity is C01/C02/C03's subject"],
@@ -322,4 +345,6 @@ def instances(tier, seed):
             mk(f"tax[v{major},{n}]", "tax", dict(major=major, nyears=n, fixed=fixed()))
         mk(f"profile[v{major}]", "profile", dict(major=major, fixed=fixed()))
     mk("unclosed_v2", "unclosed_v2", {})
+    for major, close in ((1, False), (1, True), (2, True)):
+        mk(f"entity_texts[v{major},close={close}]", "entity_texts", dict(major=major, close=close))
     return out
